@@ -782,6 +782,74 @@ def h9(rep, src):
             rep.violation("H9", key, "%s: %s" % (why, [show(m, 70) for m in all_gets]), f.where())
 
 
+def h10(rep, src):
+    """The column map of a FROM clause is consistent with the relation it describes (two sites that must agree)."""
+    rep.rule(
+        "H10",
+        "consistency of a USING/NATURAL join with its column map: (a) Join::remove_duplicates_and_coalesce forwards EVERY input field that is not coalesced (selected by `!coalesced.contains(col)` alone) and "
+        "(b) try_from_select hands the resolver the whole column hierarchy of the FROM item (only the last component stripped).  A deviation at one site alone is tolerated (a dropped column is then refused, "
+        "an extra test prunes nothing); deviations at both sites are a violation",
+        floor=2,
+        necessary="if the join drops the right-hand copy of a shared column and the map entry pointing to it is pruned, the unqualified name has a single candidate left and is silently bound to the left table",
+    )
+    fa = [f for f in src.find_fns(name="remove_duplicates_and_coalesce", file="relation/rewriting.rs") if (f.self_ty or "") == "Join"]
+    fb = src.find_fns(name="try_from_select", file="sql/relation.rs")
+    if len(fa) != 1 or len(fb) != 1:
+        rep.undecidable("H10", "sites", "remove_duplicates_and_coalesce / try_from_select not found (%d, %d)" % (len(fa), len(fb)), "src/sql/relation.rs")
+        return
+    fa, fb = fa[0], fb[0]
+    vp = [p["pat"]["name"] for p in fa.params if not p.get("self") and p["pat"]["k"] == "ident" and "Vec<String>" in p["ty"].replace(" ", "")]
+    # (a) the forwarding closure: the second filter_map over self.field_inputs()
+    fms = [m for m in find(fa.body, "mcall") if m["m"] == "filter_map" and m["args"] and m["args"][0]["k"] == "closure" and "field_inputs" in show(m["recv"], 0)]
+    fwd = [m for m in fms if not any(is_call_to(c, "Expr::coalesce") for c in find(m["args"][0], "call"))]
+    a_plain = None
+    a_txt = None
+    if len(fwd) == 1 and vp:
+        cl = fwd[0]["args"][0]
+        lets = {l["pat"]["name"]: l["init"] for l in find(cl["body"], "let") if l["pat"]["k"] == "ident" and l.get("init") is not None}
+        tail = cl["body"]
+        while tail["k"] == "block":
+            st = tail["stmts"]
+            tail = st[-1]["e"] if st and st[-1]["k"] == "expr" and not st[-1].get("semi") else {"k": "none"}
+        a_txt = show(cl["body"], 160)
+        cond = None
+        if tail["k"] == "mcall" and tail["m"] in ("then_some", "then"):
+            cond = tail["recv"]
+        elif tail["k"] == "if" and tail.get("else") is not None:
+            cond = tail["cond"]
+        other_stmts = [x for x in walk(cl["body"]) if x["k"] in ("return", "assign") or (x["k"] == "mcall" and x["m"] in ("push", "insert", "extend", "remove"))]
+        if cond is not None and not other_stmts:
+            c = cond
+            neg = False
+            while c["k"] in ("paren", "unary"):
+                if c["k"] == "unary" and c["op"].strip() == "!":
+                    neg = not neg
+                c = c["e"]
+            a_plain = neg and c["k"] == "mcall" and c["m"] == "contains" and path_of(c["recv"]) == vp[0] and len(c["args"]) == 1
+        else:
+            a_plain = False
+    # (b) the hierarchy handed to the select-items resolver
+    calls = [c for c in find(fb.body, "mcall") if c["m"] == "try_from_select_items_selection_and_group_by" and c["args"]]
+    b_plain = None
+    b_txt = None
+    if len(calls) == 1:
+        a0 = calls[0]["args"][0]
+        while a0["k"] == "ref":
+            a0 = a0["e"]
+        b_txt = show(a0, 160)
+        if a0["k"] == "mcall" and a0["m"] == "filter_map" and a0["args"] and a0["args"][0]["k"] == "closure":
+            inner = {m["m"] for m in find(a0["args"][0]["body"], "mcall")}
+            b_plain = inner <= {"split_last", "ok", "clone", "to_vec", "cloned", "into", "to_string"} and not list(find(a0["args"][0]["body"], "if")) and path_of(a0["recv"]) == "columns"
+        elif a0["k"] == "path":
+            b_plain = None
+    rep.instance("H10", "Join::remove_duplicates_and_coalesce@forward", {"closure": a_txt, "forwards_every_uncoalesced_field": a_plain})
+    rep.instance("H10", "try_from_select@column-map", {"map": b_txt, "unpruned": b_plain})
+    if a_plain is None or b_plain is None:
+        rep.undecidable("H10", "sites", "cannot read the forwarding closure / the hierarchy passed to the resolver (%s / %s)" % (a_txt, b_txt), fb.where())
+    elif not a_plain and not b_plain:
+        rep.violation("H10", "using-join@column-map", "the USING/NATURAL join does not forward every un-coalesced input column (%s) AND the column map is pruned before resolution (%s): a shared column outside USING keeps a single candidate and is bound silently" % (a_txt[:90], b_txt[:90]), fb.where())
+
+
 def run(rep):
     rep.explanation = (
         "Static arm-table check of hierarchy.rs (syn AST of the current tree). Decides: the suffix search counts matches with an absorbing `More` and only a single match "
@@ -806,5 +874,6 @@ def run(rep):
     h7(rep, src)
     h8(rep, src)
     h9(rep, src)
+    h10(rep, src)
     rep.assume("rustc accepts the tree (the syn facts are parsed from the same files the build uses)")
     rep.assume("BTreeMap in hierarchy.rs is std::collections::BTreeMap (no local item of that name: checked)")
